@@ -246,3 +246,239 @@ Proof.
     apply (a_gb s HA x0 g z); unfold gpc_of, bpc_of; [rewrite Heqg0|rewrite Eb]; cbn; apply Z.eqb_refl.
   - destruct H as [<-|Hin]; [exact H0|exact (Hrh e Hin)].
 Qed.
+
+(* ---- group C: the counters ------------------------------------------------------------------------ *)
+Definition gwaiting (p : gpc) : bool :=
+  match p with GWaiting _ | GLocked _ | GSleep _ | GWoken _ | GReady _ | GUnlocked _ => true | _ => false end.
+Definition gmid (p : gpc) : bool := match p with GTaken _ | GF2 => true | _ => false end.
+Definition bmid (p : bpc) : bool := match p with BSpin _ | BWon _ | BPut _ => true | _ => false end.
+Lemma gwaiting_gwake p : gwaiting (gwake p) = gwaiting p. Proof. destruct p; reflexivity. Qed.
+Lemma gmid_gwake p : gmid (gwake p) = gmid p. Proof. destruct p; reflexivity. Qed.
+
+Record sinvC (s : sst) : Prop := {
+  c_ndg : NoDup (keys (s_gthr s));
+  c_ndb : NoDup (keys (s_bthr s));
+  c_waiters : s_waiters s = fcnt gwaiting (s_gthr s);
+  (* inUseEvents = objects out of the pool - getters that have the object but not yet counted it
+                   + back() calls that have not yet decremented *)
+  c_inuse : s_inuse s = len (s_holders s) - fcnt gmid (s_gthr s) + fcnt bmid (s_bthr s) + s_pdec s;
+  c_pd : 0 <= s_pdec s;
+  c_pb : 0 <= s_pbc s
+}.
+
+Lemma sinvC_init c : sinvC (sinit c).
+Proof. split; cbn; try constructor; try reflexivity; lia. Qed.
+
+Lemma sinvC_step c s l s' : sinvC s -> sstep c s l = Some s' -> sinvC s'.
+Proof.
+  intros [Hg Hb Hw Hin Hpd Hpb] H.
+  destruct l; unfold sstep in H; step_split H; inversion H; subst; clear H; bnorm; subst;
+    try (split; assumption).
+  all: split; sst_unfold; rewrite ?keys_fmapv; try apply NoDup_fset; try assumption; try lia.
+  all: rewrite ?(fcnt_fset GIdle gwaiting _ _ _ Hg), ?(fcnt_fset GIdle gmid _ _ _ Hg), ?(fcnt_fset BIdle bmid _ _ _ Hb) by reflexivity;
+       rewrite ?fcnt_fmapv, ?(fcnt_ext _ _ _ gwaiting_gwake), ?(fcnt_ext _ _ _ gmid_gwake);
+       repeat match goal with E : fget _ _ _ = _ |- _ => rewrite E end;
+       cbn [gwaiting gmid bmid b2z]; rewrite ?len_cons; try (rewrite len_rem1 by assumption); try lia.
+Qed.
+
+(* ---- all invariants together ---------------------------------------------------------------------- *)
+Definition sinv (c : pcfg) (s : sst) : Prop := sinvA s /\ sinvB c s /\ sinvC s.
+
+Lemma sinv_init c : sinv c (sinit c).
+Proof. split; [apply sinvA_init|split; [apply sinvB_init|apply sinvC_init]]. Qed.
+
+Lemma sinv_step c s l s' : sinv c s -> sstep c s l = Some s' -> sinv c s'.
+Proof.
+  intros (HA & HB & HC) H. split; [exact (sinvA_step c s l s' HA H)|split; [exact (sinvB_step c s l s' HA HB H)|exact (sinvC_step c s l s' HC H)]].
+Qed.
+
+Lemma sinv_run c ls s s' : sinv c s -> srun c s ls = Some s' -> sinv c s'.
+Proof. apply srun_invariant. intros; eapply sinv_step; eauto. Qed.
+
+Lemma sinv_reach c ls s : srun c (sinit c) ls = Some s -> sinv c s.
+Proof. apply sinv_run. apply sinv_init. Qed.
+
+(* C05: holders + events inside back() that are not yet in a slot never exceed the capacity *)
+Lemma transit_keys_In (m : list (Z * bpc)) e :
+  In e (keys (filter (fun kv => transit (snd kv)) m)) -> exists p, In (e, p) m /\ transit p = true.
+Proof.
+  induction m as [|[k v] r IH]; cbn [filter keys map snd]; [cbn; tauto|].
+  destruct (transit v) eqn:E; cbn [keys map fst In].
+  - intros [<-|H]; [exists v; split; [left; reflexivity|exact E]|]. destruct (IH H) as [p [Hp Ht]]. exists p. split; [right; exact Hp|exact Ht].
+  - intros H. destruct (IH H) as [p [Hp Ht]]. exists p. split; [right; exact Hp|exact Ht].
+Qed.
+
+Lemma NoDup_keys_filter {V} (P : Z * V -> bool) (m : list (Z * V)) : NoDup (keys m) -> NoDup (keys (filter P m)).
+Proof.
+  induction m as [|[k v] r IH]; cbn [filter keys map fst]; [trivial|]. intros H. inversion H as [|a b Hni Hr]; subst.
+  destruct (P (k, v)); [|exact (IH Hr)]. cbn [keys map fst]. constructor; [|exact (IH Hr)].
+  intros Hin. apply Hni. clear - Hin. induction r as [|[k' v'] r IH]; cbn [filter keys map fst In] in *; [tauto|].
+  destruct (P (k', v')); cbn [keys map fst In] in *; [destruct Hin as [H|H]; [left; exact H|right; exact (IH H)]|right; exact (IH Hin)].
+Qed.
+
+Lemma fcnt_keys_filter {V} (P : V -> bool) (m : list (Z * V)) :
+  fcnt P m = len (keys (filter (fun kv => P (snd kv)) m)).
+Proof. unfold fcnt, len, keys. rewrite map_length. reflexivity. Qed.
+
+Lemma NoDup_app_intro (l l' : list Z) : NoDup l -> NoDup l' -> (forall x, In x l -> ~ In x l') -> NoDup (l ++ l').
+Proof.
+  induction l as [|a r IH]; cbn [app]; [auto|]. intros H H' Hd. inversion H as [|a0 b Hni Hr]; subst. constructor.
+  - rewrite in_app_iff. intros [Hin|Hin]; [exact (Hni Hin)|exact (Hd a (or_introl eq_refl) Hin)].
+  - apply IH; [exact Hr|exact H'|]. intros x Hx. apply Hd. right. exact Hx.
+Qed.
+
+Lemma std_held_le_capacity c s : 0 <= cap c -> sinv c s -> len (s_holders s) + fcnt transit (s_bthr s) <= cap c.
+Proof.
+  intros Hc (HA & HB & HC). rewrite fcnt_keys_filter.
+  set (tr := keys (filter (fun kv => transit (snd kv)) (s_bthr s))).
+  assert (Hlen : len (s_holders s ++ tr) = len (s_holders s) + len tr) by (unfold len; rewrite app_length; lia).
+  rewrite <- Hlen.
+  assert (Htr : forall e, In e tr -> transit (bpc_of s e) = true).
+  { intros e He. destruct (transit_keys_In _ _ He) as [p [Hp Ht]]. unfold bpc_of. rewrite (fget_In BIdle e p _ (c_ndb s HC) Hp). exact Ht. }
+  apply NoDup_range_len; [exact Hc| |].
+  - apply NoDup_app_intro; [exact (b_nd c s HB)|apply NoDup_keys_filter; exact (c_ndb s HC)|].
+    intros e Hh Ht. specialize (Htr e Ht). rewrite (b_hidle c s HB e Hh) in Htr. discriminate.
+  - intros e He. apply in_app_iff in He. destruct He as [He|He]; [exact (b_rh c s HB e He)|].
+    apply (b_rb c s HB). specialize (Htr e He). intros E. rewrite E in Htr. discriminate.
+Qed.
+
+(* C05: quiescence => counters are zero *)
+Definition squiescent (s : sst) : Prop :=
+  (forall g, gpc_of s g = GIdle) /\ (forall e, bpc_of s e = BIdle) /\ s_holders s = [] /\ s_pdec s = 0.
+
+Lemma std_quiescent_zero c s : sinv c s -> squiescent s -> s_inuse s = 0 /\ s_waiters s = 0.
+Proof.
+  intros (_ & _ & HC) (Hg & Hb & Hh & Hp). destruct HC as [Hng Hnb Hw Hin _ _].
+  rewrite Hin, Hw, Hh, Hp.
+  rewrite (fcnt_zero GIdle gwaiting _ Hng eq_refl), (fcnt_zero GIdle gmid _ Hng eq_refl), (fcnt_zero BIdle bmid _ Hnb eq_refl).
+  - split; reflexivity.
+  - intros k. unfold bpc_of in Hb. rewrite Hb. reflexivity.
+  - intros k. unfold gpc_of in Hg. rewrite Hg. reflexivity.
+  - intros k. unfold gpc_of in Hg. rewrite Hg. reflexivity.
+Qed.
+
+Lemma std_sleeper_counted c s g x : sinv c s -> gpc_of s g = GSleep x -> 1 <= s_waiters s.
+Proof.
+  intros (_ & _ & HC) Hg. rewrite (c_waiters s HC). apply (fcnt_pos GIdle gwaiting g); [reflexivity|].
+  unfold gpc_of in Hg. rewrite Hg. reflexivity.
+Qed.
+
+(* ---- C05: no event object is handed out twice / returned twice ------------------------------------ *)
+(* per object e: "taken out of a slot" and "back() begun" alternate; [out] = e is currently held *)
+Fixpoint alt (e : Z) (out : bool) (ls : list slabel) : bool :=
+  match ls with
+  | [] => true
+  | STake _ _ e' :: r => if e' =? e then negb out && alt e true r else alt e out r
+  | SBClaim e' _ :: r => if e' =? e then out && alt e false r else alt e out r
+  | _ :: r => alt e out r
+  end.
+
+Lemma step_holders c s l s1 :
+  sinv c s -> sstep c s l = Some s1 ->
+  match l with
+  | STake _ _ e' => ~ In e' (s_holders s) /\ s_holders s1 = e' :: s_holders s
+  | SBClaim e' _ => In e' (s_holders s) /\ s_holders s1 = rem1 e' (s_holders s)
+  | _ => s_holders s1 = s_holders s
+  end.
+Proof.
+  intros (HA & HB & HC) H.
+  destruct l; unfold sstep in H; step_split H; inversion H; subst; clear H; bnorm; subst; sst_unfold; try reflexivity.
+  - split; [|reflexivity]. exact (proj1 (b_u2 c s HB _ _ Heqo)).
+  - split; [assumption|reflexivity].
+Qed.
+
+Lemma mem_z_rem1_other e e' l : e <> e' -> mem_z e (rem1 e' l) = mem_z e l.
+Proof.
+  intros Hne. induction l as [|y r IH]; cbn [rem1 mem_z]; [reflexivity|].
+  destruct (e' =? y) eqn:E.
+  - apply Z.eqb_eq in E; subst. replace (e =? y) with false by lia. reflexivity.
+  - cbn [mem_z]. rewrite IH. reflexivity.
+Qed.
+
+Lemma std_alternation c e ls : forall s s', sinv c s -> srun c s ls = Some s' -> alt e (mem_z e (s_holders s)) ls = true.
+Proof.
+  induction ls as [|l r IH]; intros s s' Hs Hr; cbn [srun] in Hr; [reflexivity|].
+  destruct (sstep c s l) as [s1|] eqn:E; [|discriminate].
+  pose proof (sinv_step c s l s1 Hs E) as Hs1. specialize (IH s1 s' Hs1 Hr).
+  pose proof (step_holders c s l s1 Hs E) as Hh.
+  destruct l; cbn [alt]; try (rewrite <- Hh; exact IH).
+  - (* STake *) destruct Hh as [Hni Heq]. rewrite Heq in IH. cbn [mem_z] in IH. destruct (Z.eqb_spec e0 e) as [->|Hne].
+    + rewrite Z.eqb_refl in IH. cbn [orb] in IH. rewrite IH.
+      destruct (mem_z e (s_holders s)) eqn:Em; [apply mem_z_In in Em; contradiction|reflexivity].
+    + replace (e =? e0) with false in IH by lia. exact IH.
+  - (* SBClaim *) destruct Hh as [Hin Heq]. rewrite Heq in IH. destruct (Z.eqb_spec e0 e) as [->|Hne].
+    + destruct Hs as (_ & HB & _).
+      replace (mem_z e (rem1 e (s_holders s))) with false in IH.
+      * rewrite IH. apply mem_z_In in Hin. rewrite Hin. reflexivity.
+      * symmetry. destruct (mem_z e (rem1 e (s_holders s))) eqn:Em; [|reflexivity].
+        apply mem_z_In in Em. exfalso. exact (NoDup_rem1_notin _ _ (b_nd c s HB) Em).
+    + rewrite mem_z_rem1_other in IH by congruence. exact IH.
+Qed.
+
+(* ---- C04 (pool clause): a sleeping getter of the standard pool is woken within one heartbeat -------- *)
+Definition s_nonenv (ls : list slabel) : Prop := forallb (fun l => negb (s_env l)) ls = true.
+Definition s_ticks (ls : list slabel) : nat := length (filter s_is_tickw ls).
+
+Section StdLive.
+  Variable c : pcfg.
+  Hypothesis Htick : tickc c true true = true.
+
+  Lemma gpc_sset_tick s t g : gpc_of (sset_tick s t) g = gpc_of s g. Proof. reflexivity. Qed.
+  Lemma gpc_sbcast s g : gpc_of (sbcast s) g = gwake (gpc_of s g).
+  Proof. unfold gpc_of, sbcast, sbroadcast. cbn [s_gthr supd]. apply fget_fmapv. reflexivity. Qed.
+
+  Lemma std_tick_from_idle s g x :
+    s_tick s = TIdle -> gpc_of s g = GSleep x -> 1 <= s_waiters s -> avail c (s_inuse s) (cap c) = true ->
+    exists s', srun c s [STickW (s_waiters s); STickA true; STickFire] = Some s' /\ gpc_of s' g = GWoken x.
+  Proof.
+    intros Ht Hg Hw Ha. eexists. split.
+    - cbn [srun sstep]. rewrite Ht, Z.eqb_refl. cbn [sset_tick supd s_tick s_inuse]. rewrite Ha. cbn [Bool.eqb].
+      cbn [sset_tick supd s_tick s_inuse]. replace (0 <? s_waiters s) with true by lia. rewrite Htick. reflexivity.
+    - rewrite gpc_sset_tick, gpc_sbcast. unfold gpc_of in *. cbn [s_gthr supd sset_tick]. rewrite Hg. reflexivity.
+  Qed.
+
+  Lemma std_no_stuck_waiter s g x :
+    gpc_of s g = GSleep x -> 1 <= s_waiters s -> avail c (s_inuse s) (cap c) = true ->
+    exists ls s', s_nonenv ls /\ (s_ticks ls <= 1)%nat /\ srun c s ls = Some s' /\ gpc_of s' g = GWoken x.
+  Proof.
+    intros Hg Hw Ha.
+    assert (Hfull : forall s0, s_tick s0 = TIdle -> s_gthr s0 = s_gthr s -> s_inuse s0 = s_inuse s -> s_waiters s0 = s_waiters s ->
+              exists s', srun c s0 [STickW (s_waiters s0); STickA true; STickFire] = Some s' /\ gpc_of s' g = GWoken x).
+    { intros s0 Ht0 Hthr Hin0 Hw0. apply (std_tick_from_idle s0 g x Ht0).
+      - unfold gpc_of in *. rewrite Hthr. exact Hg.
+      - lia.
+      - rewrite Hin0. exact Ha. }
+    assert (Hw' : gpc_of (sset_tick (sbcast s) TFired) g = GWoken x).
+    { rewrite gpc_sset_tick, gpc_sbcast, Hg. reflexivity. }
+    destruct (s_tick s) as [|w|w a|] eqn:Ht.
+    - destruct (Hfull s Ht eq_refl eq_refl eq_refl) as [s' [Hr Hp]].
+      exists [STickW (s_waiters s); STickA true; STickFire], s'. repeat split; [cbn; lia|exact Hr|exact Hp].
+    - destruct (tickc c (0 <? w) true) eqn:Ec.
+      + exists [STickA true; STickFire]. eexists. repeat split; [cbn; lia| |exact Hw'].
+        cbn [srun sstep]. rewrite Ht, Ha. cbn [Bool.eqb sset_tick supd s_tick]. rewrite Ec. reflexivity.
+      + destruct (Hfull (sset_tick s TIdle) eq_refl eq_refl eq_refl eq_refl) as [s' [Hr Hp]].
+        exists ([STickA true; STickEnd] ++ [STickW (s_waiters (sset_tick s TIdle)); STickA true; STickFire]), s'.
+        repeat split; [cbn; lia| |exact Hp].
+        eapply srun_app; [|exact Hr].
+        cbn [srun sstep]. rewrite Ht, Ha. cbn [Bool.eqb sset_tick supd s_tick]. rewrite Ec. reflexivity.
+    - destruct (tickc c (0 <? w) a) eqn:Ec.
+      + exists [STickFire]. eexists. repeat split; [cbn; lia| |exact Hw'].
+        cbn [srun sstep]. rewrite Ht, Ec. reflexivity.
+      + destruct (Hfull (sset_tick s TIdle) eq_refl eq_refl eq_refl eq_refl) as [s' [Hr Hp]].
+        exists ([STickEnd] ++ [STickW (s_waiters (sset_tick s TIdle)); STickA true; STickFire]), s'.
+        repeat split; [cbn; lia| |exact Hp].
+        eapply srun_app; [|exact Hr]. cbn [srun sstep]. rewrite Ht, Ec. reflexivity.
+    - destruct (Hfull (sset_tick s TIdle) eq_refl eq_refl eq_refl eq_refl) as [s' [Hr Hp]].
+      exists ([STickEnd] ++ [STickW (s_waiters (sset_tick s TIdle)); STickA true; STickFire]), s'.
+      repeat split; [cbn; lia| |exact Hp].
+      eapply srun_app; [|exact Hr]. cbn [srun sstep]. rewrite Ht. reflexivity.
+  Qed.
+End StdLive.
+
+(* A.4: the getter that owns ticket x can take the slot as soon as free1[x] is set *)
+Lemma std_getter_enabled c s g x :
+  gpc_of s g = GSpin x -> f1 (slot_of s x) = true -> exists s', sstep c s (SCas g x true) = Some s' /\ gpc_of s' g = GTook x.
+Proof.
+  intros Hg Hf. unfold sstep. rewrite Hg, Hf, Z.eqb_refl. cbn [andb Bool.eqb]. eexists. split; [reflexivity|].
+  unfold gpc_of, sset_g. cbn [s_gthr supd]. rewrite fget_fset, Z.eqb_refl. reflexivity.
+Qed.
